@@ -561,7 +561,9 @@ def replay_behaviours(prop, tier, seed):
   groups = {}
   for cfg, variant in _SIM:
     if variant == 'fixed':
-      num = 500 if tier == 'quick' else 5000
+      # 14 initial states (combinator x on_hub x kind of continuation), 8 of them ContinueWith: enough
+      # behaviours that every other combinator still gets about 50 (quick) / 500 (thorough)
+      num = 700 if tier == 'quick' else 7000
     else:
       num = 120 if tier == 'quick' else 1000
     r, behs = tlc.simulate_behaviours('AsyncImpl', cfg, num=num, depth=40, seed=int(seed) + 1, timeout=900)
